@@ -73,12 +73,17 @@ CHECKS = {
     "C15": ("spec/Kernels.tla CheckKAddMul/CheckKNx1/CheckKWord/CheckKShift", "addmul (flag exact), addmul_n, the nx1 family, adc_n, "
             "sbb_n, single-word primitives, small shifts and cmp validated by TLC against balance equations "
             "'inputs = result limbs +- returned word * 2^(64 len)'."),
+    "C20": ("spec/Facade.tla", "Every facade entry point (num-traits ~40 traits incl. PrimInt/ToPrimitive/FromPrimitive/NumCast/Num, "
+            "num-integer Integer, subtle ct_eq/ct_gt/ct_lt/select/assign/swap/negate + bit_ct, ~60 forwarded Bits methods and "
+            "operators, zeroize) is recorded next to the inherent method on the same operands and validated by TLC with the Layer-1 "
+            "action of that inherent method (or required to equal the recorded inherent result where the contract is relational); "
+            "the 6 operator-impl shapes and Sum/Product come from the arith/bits events; all pairs at BITS<=4, asymmetric operands "
+            "elsewhere."),
 }
 
 PENDING = {
     "C04": "in progress in this revision: canonical-value closure over histories, comparisons and ill-formed type probes are being built",
     "C19": "in progress in this revision: uint! literal probe programs are being built",
-    "C20": "in progress in this revision: facade agreement events are being built",
 }
 
 
